@@ -1,10 +1,45 @@
 (* Props/C06.v — pinned statements for property C06 (numbers are always finite doubles,
    read and printed exactly).  Statements closed by [exact lemma], non-vacuity Examples,
    and [Print Assumptions]. *)
-From Coq Require Import ZArith NArith Bool List Floats.SpecFloat.
-From RJ Require Import Base.Outcome Base.F64 Model.Dec Model.NumOps Gen.NumGates Proofs.NumOps_proofs.
+From Coq Require Import ZArith NArith Bool List Reals Floats.SpecFloat.
+From Flocq Require Import Core.Core IEEE754.BinarySingleNaN.
+From RJ Require Import Base.Outcome Base.F64 Model.Dec Model.NumOps Gen.NumGates
+                       Proofs.Dec_proofs Proofs.NumOps_proofs.
 Local Open Scope Z_scope.
 
+(* T: in the current source every producer whose raw result can leave the finite doubles
+   carries the finiteness gate *)
+Theorem C06_gates_ok : gates_sufficient src_gates /\ src_literal_gated = true.
+Proof. split; [intros op; destruct op; simpl; intros H; first [reflexivity | discriminate H] | reflexivity]. Qed.
+
+(* every operator and builtin, whatever libm answers: finite well-formed arguments and a
+   successful evaluation give a finite result (for every gate table that gates what needs it) *)
+Theorem C06_numop_finite : forall (L : libm_sig) (g : gates) op args v,
+  gates_sufficient g -> Forall arg_ok args ->
+  eval_numop L g op args = Ok v -> f_is_finite v = true.
+Proof. exact numop_finite. Qed.
+
+(* ... in particular for the table read from the current source *)
+Theorem C06_numop_finite_src : forall (L : libm_sig) op args v,
+  Forall arg_ok args -> eval_numop L src_gates op args = Ok v -> f_is_finite v = true.
+Proof. intros L op args v. exact (numop_finite L src_gates op args v (proj1 C06_gates_ok)). Qed.
+
+(* the table of the pinned snapshot (sum/avg ungated) does not have the property:
+   std.sum([1e308, 1e308]) = +infinity.  Replayed on the implementation -> fixed in /repo
+   (commits 83b474d, 4daf312); kept as the record of why the gate is needed. *)
+Theorem C06_sum_finite_refuted :
+  exists (L : libm_sig) args v,
+    Forall arg_ok args /\ eval_numop L gates_snapshot BSum args = Ok v /\ f_is_finite v = false.
+Proof. exact sum_finite_refuted_snapshot. Qed.
+
+(* a literal Number{digits, exp}: either the finite correctly rounded double or NumberOverflow *)
+Theorem C06_literal_finite_or_error : forall d e,
+  (exists v, literal_value d e = Ok v /\ f_is_finite v = true /\ v = dec_to_f64 d e) \/
+  (literal_value d e = Err LitNumberOverflow /\ dec_to_f64 d e = S754_infinity false).
+Proof. exact literal_finite_or_error. Qed.
+
+(* the order on doubles is total away from NaN, so partial_cmp().unwrap() cannot panic
+   while the invariant holds *)
 Theorem C06_compare_total_on_finite : forall x y,
   f_is_finite x = true -> f_is_finite y = true -> f_compare x y <> None.
 Proof. exact compare_total_on_finite. Qed.
@@ -13,12 +48,74 @@ Theorem C06_cmp_num_no_panic : forall x y,
   f_is_finite x = true -> f_is_finite y = true -> exists c, cmp_num x y = Ok c.
 Proof. exact cmp_num_no_panic. Qed.
 
-Theorem C06_sum_finite_refuted :
-  exists (L : libm_sig) args v,
-    Forall (fun a => match a with AArr l => forallb f_is_finite l = true | _ => True end) args /\
-    eval_numop L gates_snapshot BSum args = Ok v /\ f_is_finite v = false.
-Proof. exact sum_finite_refuted_snapshot. Qed.
+(* dec_to_f64 d e is the round-to-nearest-even binary64 of d * 10^e; +infinity exactly when
+   that rounding reaches 2^1024 *)
+Theorem C06_dec_correctly_rounded : forall d e,
+  let r := round radix2 (FLT_exp (-1074) 53) ZnearestE (IZR (Z.of_N d) * bpow radix10 e) in
+  if Rlt_bool r (bpow radix2 1024)
+  then SF2R radix2 (dec_to_f64 d e) = r /\ is_finite_SF (dec_to_f64 d e) = true /\
+       sign_SF (dec_to_f64 d e) = false /\ valid_binary 53 1024 (dec_to_f64 d e) = true
+  else dec_to_f64 d e = S754_infinity false.
+Proof. exact dec_correctly_rounded. Qed.
 
+(* reading is monotone: between two decimals that read as x everything reads as x *)
+Theorem C06_dec_monotone : forall da ea db eb dc ec x,
+  (dec_val da ea <= dec_val db eb)%R -> (dec_val db eb <= dec_val dc ec)%R ->
+  dec_to_f64 da ea = x -> dec_to_f64 dc ec = x -> dec_to_f64 db eb = x.
+Proof. exact dec_squeeze. Qed.
+
+Theorem C06_shortest_check_sound : forall x d e,
+  shortest_check x d e = true ->
+  dec_to_f64 d e = x /\
+  forall d' e', (ndigits d' < ndigits d)%N -> dec_to_f64 d' e' <> x.
+Proof. exact shortest_check_sound. Qed.
+
+Theorem C06_check_printed_sound : forall x text,
+  check_printed x text = true ->
+  exists neg d e d' e',
+    printed_parse text = Some (neg, d, e) /\ strip_zeros (length text) d e = (d', e') /\
+    dec_val d' e' = dec_val d e /\
+    neg = f_sign x /\ f_is_finite x = true /\
+    ((d' = 0%N /\ f_is_zero x = true) \/
+     (d' <> 0%N /\ dec_to_f64 d' e' = SFabs x /\
+      forall d2 e2, (ndigits d2 < ndigits d')%N -> dec_to_f64 d2 e2 <> SFabs x)).
+Proof. exact check_printed_sound. Qed.
+
+(* non-vacuity: the hypotheses are met by non-trivial values and the conclusions bite *)
+Example C06_nonvacuous :
+  let big := S754_finite false 5010420900022432 971 in          (* 1e308 *)
+  let x03 := dec_to_f64 30000000000000004 (-17) in              (* 0.1 + 0.2 *)
+  (* finite well-formed arguments, the gated sum answers NumberOverflow, a small one a value *)
+  Forall arg_ok [AArr [big; big]] /\
+  eval_numop (const_libm f_nan) src_gates BSum [AArr [big; big]] = Err ENumberOverflow /\
+  eval_numop (const_libm f_nan) src_gates BSum [AArr [big; f_one]] = Ok big /\
+  eval_numop (const_libm (f_inf false)) src_gates BPow [ANum big; ANum big] = Err ENumberOverflow /\
+  eval_numop (const_libm f_one) src_gates BPow [ANum big; ANum f_zero] = Ok f_one /\
+  eval_numop (const_libm f_nan) src_gates BRound [ANum (dec_to_f64 25 (-1))] = Ok (f_of_Z 3) /\
+  (* literals on both sides of the range limits *)
+  literal_value 17976931348623157 292 = Ok f_max /\
+  literal_value 1797693134862315807 290 = Ok f_max /\
+  literal_value 1797693134862315808 290 = Err LitNumberOverflow /\
+  literal_value 1 9223372036854775807 = Err LitNumberOverflow /\
+  literal_value 24703282292062328 (-340) = Ok f_min_sub /\
+  literal_value 24703282292062327 (-340) = Ok f_zero /\
+  (* the shortest check accepts 17 digits only where 16 do not suffice *)
+  shortest_check x03 30000000000000004 (-17) = true /\
+  shortest_check (dec_to_f64 3 (-1)) 30000000000000000 (-17) = false /\
+  shortest_check (dec_to_f64 3 (-1)) 3 (-1) = true /\
+  check_printed (SFopp x03) [45; 48; 46; 51; 48; 48; 48; 48; 48; 48; 48; 48; 48; 48; 48; 48; 48; 48; 48; 52]%N = true /\
+  check_printed f_max [49; 55; 57; 55; 54; 57; 51; 49; 51; 52; 56; 54; 50; 51; 49; 53; 55; 48; 48; 48]%N = false.
+Proof. vm_compute. repeat split; repeat constructor. Qed.
+
+Print Assumptions C06_gates_ok.
+Print Assumptions C06_numop_finite.
+Print Assumptions C06_numop_finite_src.
+Print Assumptions C06_sum_finite_refuted.
+Print Assumptions C06_literal_finite_or_error.
 Print Assumptions C06_compare_total_on_finite.
 Print Assumptions C06_cmp_num_no_panic.
-Print Assumptions C06_sum_finite_refuted.
+Print Assumptions C06_dec_correctly_rounded.
+Print Assumptions C06_dec_monotone.
+Print Assumptions C06_shortest_check_sound.
+Print Assumptions C06_check_printed_sound.
+Print Assumptions C06_nonvacuous.
